@@ -8,6 +8,7 @@ import units
 from units import PASS, VIOLATION, INCONCLUSIVE, VERIF, BUILD
 
 _cache = {}
+HOOK_COMMITS = []
 
 SHAPES_Q = '0:1,1:1,2:2,3:1,4:4,8:8,12:4,0:4'
 SHAPES_T = '0:1,1:1,2:2,3:1,4:4,8:8,12:4,0:4,16:16,24:8,2:1,0:8'
@@ -62,13 +63,20 @@ def relevant(pid, spec, r, f):
     fp = f.get('function_props') or []
     if fp:
         return pid in fp
-    only = spec.get('props')
+    if f.get("harness"):
+        return ("::" + pid.lower() + "_") in f["harness"] or f["harness"].split("::")[-1].startswith(pid.lower() + "_") or pid in (spec.get("props") or [])
+    only = spec.get("props")
     return (only is None) or (pid in only)
 
 
 def rank(pid, f):
     """smaller = reported first: failures that name the property's own clause and were confirmed
     through ordinary requests, then smaller inputs"""
+    if f.get('harness'):
+        # cheapest failing harness first (its playback is the fastest to produce)
+        order = ['units', 'pod', 'tokens', 'overaligned', 'large', 'boxes']
+        fam = [i for i, n in enumerate(order) if ('::' + n + '::') in f['harness']]
+        return (fam[0] if fam else 50, len(f['harness']))
     cl = ' '.join(f.get('confirmed') or []) + ' '.join(f.get('clauses') or [])
     own = 0 if (pid in cl or 'panic' in cl) else 1
     size = len(json.dumps(f.get('case', {})))
@@ -161,5 +169,52 @@ PROPERTIES = {
                       'its builder half is unit `builder` (C12)'],
     },
 }
+
+RT = {'kind': 'kani', 'crate': 'runtime', 'repo_crates': ['truc_runtime'], 'flags': ['--cbmc-args', '--memory-leak-check'],
+      'assumptions': ['catch_unwind is stubbed by "call the closure, wrap in Ok" (the Kani compiler crashes on the real one and Kani '
+                      'does not unwind): the panic arm of try_convert_vec_in_place is unreachable in these harnesses']}
+RT_BOUND = 'BOUNDED: vector length <= 4 (<= 3 for boxed, large and over-aligned elements); element families: u32->i32, drop-counted 1-byte tokens, Box-owning values, (), [u64;4]->[i64;4], repr(align(16)) pair'
+K_C08 = dict(RT, name='kani-convert-c08', harnesses=['c08_'], bounded=RT_BOUND, min_harnesses=7,
+             functions=['truc_runtime/src/convert.rs try_convert_vec_in_place', 'truc_runtime/src/convert.rs convert_vec_in_place'])
+K_C09 = dict(RT, name='kani-convert-c09', harnesses=['c09_'], bounded=RT_BOUND, min_harnesses=6,
+             functions=['truc_runtime/src/convert.rs try_convert_vec_in_place (error-return arm, cleanup closure)'])
+K_C10 = dict(RT, name='kani-convert-c10', harnesses=['c10_'], flags=[], min_harnesses=8,
+             expect={'c10_size': {'must_fail_only': ['size_of {} vs {}'], 'covers_sat': 0},
+                     'c10_zst_': {'must_fail_only': ['size_of {} vs {}'], 'covers_sat': 0},
+                     'c10_align': {'must_fail_only': ['align_of {} vs {}'], 'covers_sat': 0}},
+             bounded='BOUNDED in the type matrix only (8 pairs); per pair complete: the refusal precedes every loop',
+             functions=['truc_runtime/src/convert.rs try_convert_vec_in_place (the two layout assertions)'])
+K_DATA = dict(RT, name='kani-data-primitives', harnesses=['data::'], flags=[], min_harnesses=6,
+              expect={'probe_': {'probe': True}, 'control_oob': {'must_fail_with': 'pointer outside object bounds'}},
+              functions=['truc_runtime/src/data.rs RecordMaybeUninit::read', 'truc_runtime/src/data.rs RecordMaybeUninit::write',
+                         'truc_runtime/src/data.rs RecordMaybeUninit::get', 'truc_runtime/src/data.rs RecordMaybeUninit::get_mut'],
+              assumptions=['std::ptr::read/write are replaced by wrappers that assert std\'s documented alignment precondition and move the bytes '
+                           'one by one (CBMC aligns every object, Kani does not check raw-pointer alignment)'])
+
+PROPERTIES['C08'] = {
+    'level': 'model_checking',
+    'units': lambda tier: [K_C08],
+    'explanation': 'Contract of try_convert_vec_in_place / convert_vec_in_place checked by Kani on the real function with a specification '
+                   'converter (asserts: called once per element, in order, with the most recent output; may modify it) and symbolic '
+                   'keep/abandon/modify pattern: result = produced values in order, same allocation, same capacity, no leak.',
+    'unchecked': ['lengths > 4', 'compiled-with-optimisation clause (MIR semantics only)'],
+}
+PROPERTIES['C09'] = {
+    'level': 'model_checking',
+    'units': lambda tier: [K_C09],
+    'explanation': 'Error-return arm: failure at a symbolic position after a symbolic keep/abandon/modify prefix; every input and every '
+                   'produced output dropped exactly once (ghost drop counters), converter not called again, same error value, allocation '
+                   'released (CBMC memory-leak check).',
+    'unchecked': ['panic half of the property: Kani has no unwinding, so payload identity and drops during unwinding are not decidable here '
+                  '(the cleanup closure and buffer release are the same code on both arms)'],
+}
+PROPERTIES['C10'] = {
+    'level': 'model_checking',
+    'units': lambda tier: [K_C10],
+    'explanation': 'Per mismatching type pair the harness must fail with exactly the size (or alignment) assertion of the real function and '
+                   'the cover inside the converter must be unsatisfiable; matching pairs are the C08 harnesses (assertions pass, covers reachable).',
+    'unchecked': ['"dropped normally after the panic" is argued from the refusal preceding ManuallyDrop::new, not executed (no unwinding in Kani)'],
+}
+
 PROPERTIES['C02'] = dict(PROPERTIES['C01'])
 PROPERTIES['C03'] = dict(PROPERTIES['C01'])
